@@ -19,7 +19,7 @@ for id in "$@"; do
   D=/verif/seeded/$id
   cmd=$(python3 -c "import json;print(json.load(open('$D/meta.json')).get('demo_cmd',''))")
   [ -n "$cmd" ] || { echo "NOT-VERIFIED $id no demo_cmd"; continue; }
-  git -C "$W" checkout -q --detach "$(git -C /repo rev-parse HEAD)"; git -C "$W" checkout -- . ; git -C "$W" clean -fdq crates
+  git -C "$W" reset -q --hard; git -C "$W" checkout -q --detach "$(git -C /repo rev-parse HEAD)"; git -C "$W" clean -fdq crates
   if ! git -C "$W" apply "$D/patch.diff"; then echo "NOT-VERIFIED $id patch does not apply"; continue; fi
   log=/tmp/verify_$id.log
   (cd "$W" && cargo nextest run --workspace --offline --no-fail-fast --test-threads 6 >"$log" 2>&1)
